@@ -17,7 +17,7 @@ from .. import observe as ob
 from ..gtext import inv
 
 PROP = "C17"
-RUNS = {"quick": 20000, "thorough": 1500000}
+RUNS = {"quick": 20000, "thorough": 1000000}
 WALL = {"quick": 280, "thorough": 3500}
 RULE = ("one run = graph + 1-4 groups built from intended walks/sets in a random item style, split over "
         "lines, delivered in a scheduled order; distinct = distinct (style, walk shape, order) digests")
